@@ -31,6 +31,7 @@
 #include <sys/time.h>
 #include <sys/types.h>
 #include <sys/uio.h>
+#include <sys/utsname.h>
 #include <time.h>
 #include <unistd.h>
 
@@ -67,6 +68,7 @@ static int64_t  g_clock_reads = 0;
 static int      g_clock_mono = 1;    /* also simulate CLOCK_MONOTONIC & co (tier L turns this off: its own scheduler needs real timeouts) */
 static int64_t  g_clock_now_ns = 0;
 static int      g_pid = 0;
+static char     g_host[64] = "";     /* simulated host name (gethostname, uname) */
 static int      g_rd_rate = 0, g_wr_rate = 0;     /* per-256 probability of short / EINTR */
 static long     g_rd_fail_at = -1, g_wr_fail_at = -1, g_wr_crash_at = -1;
 static int      g_rd_errno = EIO, g_wr_errno = ENOSPC;
@@ -145,6 +147,7 @@ static void load_plan(const char *path) {
         else if (!strcmp(k, "clock_step_ns")) g_clock_step_ns = parse_i64(v);
         else if (!strcmp(k, "clock_jump_every")) g_clock_jump_every = parse_i64(v);
         else if (!strcmp(k, "pid")) g_pid = atoi(v);
+        else if (!strcmp(k, "host")) { strncpy(g_host, v, sizeof g_host - 1); }
         else if (!strcmp(k, "rd_rate")) g_rd_rate = atoi(v);
         else if (!strcmp(k, "wr_rate")) g_wr_rate = atoi(v);
         else if (!strcmp(k, "rd_fail_at")) g_rd_fail_at = atol(v);
@@ -271,6 +274,29 @@ pid_t getpid(void) {
     g_cnt_getpid++;
     logline("getpid", g_pid, 0, 0);
     return g_pid;
+}
+
+/* ---------- host name ---------- */
+int gethostname(char *name, size_t len) {
+    if (!g_active || !g_host[0]) {
+        struct utsname u;
+        if (syscall(SYS_uname, &u) != 0) return -1;
+        strncpy(name, u.nodename, len);
+        if (len) name[len - 1] = 0;
+        return 0;
+    }
+    strncpy(name, g_host, len);
+    if (len) name[len - 1] = 0;
+    logline("hostname", 0, 0, 0);
+    return 0;
+}
+int uname(struct utsname *u) {
+    int r = syscall(SYS_uname, u);
+    if (r == 0 && g_active && g_host[0]) {
+        strncpy(u->nodename, g_host, sizeof u->nodename - 1);
+        logline("hostname", 1, 0, 0);
+    }
+    return r;
 }
 
 /* ---------- fd classification ---------- */
